@@ -308,4 +308,36 @@ PROPS = {
                        'verdict equality of the real validator, oracle, gate and getters with the model on every generated case; the '
                        'clauses accepted=>bound and no-panic are evaluated on the code\'s own verdicts',
     },
+    'C13': {
+        'lean_targets': ['Shisui.Props.C13'],
+        'min_obligations': 25,
+        'runs': [{'name': 'stateproof', 'harness': ['C13'], 'driver': ['C13']}],
+        'rule': 'account tries of 1..100 leaves (thorough: ..500) built with go-ethereum\'s trie over key sets with shared prefixes (a third of the keys '
+                'copy a short or a 60..63-nibble prefix of an earlier key: extension nodes, deep branches), storage tries under the contract accounts '
+                '(32-byte keys, and 1..4-byte keys for embedded leaves and embedded branches), bytecode of 0..32768 bytes; EVERY hashed node on every '
+                'path is the claimed target once (proof from Trie.Prove, consumed path from an independent walker) and is then mutated: 25 kinds on '
+                'the node side (path nibble flipped / dropped / appended, node hash bit, unknown block hash, block hash of another header, header source '
+                'returning another root, adjacent nodes swapped, first / middle / last node dropped, last node duplicated, junk / the genuine child '
+                'appended, bit flip / truncation / extension / emptying / replacement of a node, empty proof, proof of another key, 66 nodes, 1025-byte '
+                'node, 65 nibbles, unknown selector) and 10 on the account side (address hash bit, the same proof mutations on the account proof, proof of '
+                'another account), plus code / code-hash mutations; the 9 mainnet vectors of state/testdata with all mutations; hand-made chains under a '
+                'header source that vouches for them (empty-key short node c28080, extension longer than the path, compact flags 4..15, value slot, '
+                'embedded extension, oversized embedded node, trailing bytes, a leaf VALUE equal to the hash of a foreign node, an account proof that '
+                'stops at a branch whose child hash parses as an account, slim / odd account encodings); 3000 DecodeTrieNode+TraverseTrieNode cases on '
+                'generated and damaged nodes, 1500 types.FullAccount cases, Keccak-256 at the block boundaries. Thorough: 20 worlds, account and storage tries to 500 leaves, 8 '
+                'mutations per target. Non-trivial = at least two proof nodes (one link walked); distinct = distinct input lines among those',
+        'trusted': [HASHES,
+                    'ztyp SSZ decoding of key and value is not re-modelled: the harness serialises structured items with the repo\'s own Serialize methods; the '
+                    'model takes the fields and the decoders\' limits (64 nibbles, 65 nodes, 1024-byte nodes, 32768-byte code)',
+                    'go-ethereum rlp (raw.go split functions, stream decoding of the 4-field account) and the hex-prefix key decoding are re-modelled in Lean and '
+                    'compared on every run, including on ~4500 direct decoder cases'],
+        'assumptions': ['the header source returns a header or an error (never nil, nil)', 'content keys are non-empty (the empty key is C01\'s finding)',
+                        'the underlying ContentStorage.Put succeeds (its error is logged and swallowed by state Storage.Put)'],
+        'explanation': 'theorems for every hash function and every decoder: ValidateContent = ok <=> hash-linked chain from the named header\'s state root along '
+                       'the key\'s path (each link a child REFERENCE), path used up, final hash = key hash (account / storage / bytecode variants); Put stores '
+                       'exactly the final node / the code; wrong root, broken link, wrong path, unused path, surplus, missing nodes => error; no panics (ideal '
+                       'model). The code is compared exactly with the model (verdict, stored bytes) under some setting of the three deviation switches, and '
+                       'every answer of the code is judged against the IDEAL specification: a panic, an acceptance the specification refuses, or a stored '
+                       'value other than the final node is a monitor failure naming the clause',
+    },
 }
